@@ -64,7 +64,10 @@ THEOREMS = ["link_tables", "validTree_iff", "validTree_connects", "aStar_path", 
             "cross_link_tables", "cross_lengths", "cross_torusPath", "cross_ldf", "cross_hexagons",
             "cross_linksBetween", "meshLen_is_distance", "torusLen_is_distance", "hexagons_exact", "torus_route",
             "mesh_route", "forest_unfolds", "nerNet_valid", "nerNet_only_oracle_errors", "routeNet_faultfree",
-            "aStar_complete", "aStar_only_disconnected", "stronglyConnected_sound", "aStar_succeeds"]
+            "aStar_complete", "aStar_only_disconnected", "stronglyConnected_sound", "aStar_succeeds",
+            # round 3: the repair loop
+            "aStar_path_simple", "RInv_iff", "copyAndDisconnect_forest", "repairOne_preserves",
+            "avoidDeadLinks_valid", "legacy_two_parents_witness"]
 
 RULE = ("machines 1x1..12x12 (incl. 1xN, 2xN), torus / mesh / partly wrapped, 0-30% dead directed links (half of them "
         "dead in one direction only), dead chips; one net per case with fan-out 0-12, sinks on the source chip, "
